@@ -16,6 +16,12 @@ class Call(Expression):
         return f'{self.func}({args})'
 
     def _compile(self, out, flags):
+        # Without arguments, this is the same as a plain reference. Ask for the
+        # rule itself, so that both kinds of reference share one memo entry.
+        if not self.args:
+            out += (STATUS, RESULT, POS) << Yield((CALL, self.func.target(flags), POS))
+            return
+
         args, kwargs = [], []
 
         for arg in self.args:
